@@ -107,6 +107,18 @@ CHECKS = {
         "Presence of a seek table is not required (the statement does not), only truthfulness of what is written.",
         "DESIGN.md section 4 C09",
     ),
+    "C10": (
+        "stateful proptest: edit histories applied through update_file/update, oracle = independent frame map + exact byte accounting",
+        "exploration",
+        "Identical audio frames behind independently assembled metadata (0-3 padding blocks incl. sizes 0, 1, 17 and near 2^24, any "
+        "block order); 1-5 successive edits whose size deltas sweep -9..+9 bytes around 0, the first padding's size and that size + 4; "
+        "in-place results must keep length, first-frame offset and frame bytes and read back as the edited list except the first "
+        "padding's size; rebuilt results must be edited blocks + identical frames with the original untouched; refused edits "
+        "(second PNG icon, > 2^24-1 byte block, failing callback) must leave the original byte-identical; every result must decode to "
+        "the same PCM.",
+        "Block lists are read back with the crate's own reader (its fidelity is C11); first-frame offsets and frame bytes come from the independent parser.",
+        "DESIGN.md section 4 C10",
+    ),
 }
 
 NOT_YET = {}
